@@ -93,19 +93,24 @@ func unpackB4(data byte, b0 *bool, b1 *bool, b2 *bool, b3 *bool) error {
 func packF16(f float32) []byte {
 	buffer := []byte{0, 0, 0}
 
-	if f > 670760.96 {
-		f = 670760.96
-	} else if f < -671088.64 {
-		f = -671088.64
+	// 0x7FFF (670760.96) is reserved for invalid data and no DPT 9.xxx decoder accepts a
+	// magnitude above 670760, so the largest encodable magnitude is 2046 * 2^15 / 100.
+	if f > 670433.28 {
+		f = 670433.28
+	} else if f < -670433.28 {
+		f = -670433.28
 	}
 
-	signedMantissa := int(f * 100)
+	// Find the smallest exponent for which the mantissa, rounded to nearest once, fits.
+	scaled := float64(f) * 100
 	exp := 0
 
-	for signedMantissa > 2047 || signedMantissa < -2048 {
-		signedMantissa /= 2
+	for exp < 15 && (math.Round(scaled) > 2047 || math.Round(scaled) < -2048) {
+		scaled /= 2
 		exp++
 	}
+
+	signedMantissa := int(math.Round(scaled))
 
 	buffer[1] |= uint8(exp&15) << 3
 
